@@ -1411,12 +1411,12 @@ class HttpHeaderFieldValueSetCookieParams(FieldsSemicolonSeparated):
     secure = attr.ib(
         converter=HttpHeaderFieldValueSetCookieParamSecure.convert,
         validator=attr.validators.instance_of(HttpHeaderFieldValueSetCookieParamSecure),
-        default=HttpHeaderFieldValueSetCookieParamSecure(False)
+        default=False
     )
     http_only = attr.ib(
         converter=HttpHeaderFieldValueSetCookieParamHttpOnly.convert,
         validator=attr.validators.instance_of(HttpHeaderFieldValueSetCookieParamHttpOnly),
-        default=HttpHeaderFieldValueSetCookieParamHttpOnly(False)
+        default=False
     )
     same_site = attr.ib(
         converter=attr.converters.optional(HttpHeaderFieldValueSetCookieParamSameSite.convert),
@@ -1452,12 +1452,12 @@ class HttpHeaderFieldValueSetCookie(FieldValueBase):  # pylint: disable=too-many
     secure = attr.ib(
         converter=attr.converters.optional(HttpHeaderFieldValueSetCookieParamSecure.convert),
         validator=attr.validators.optional(attr.validators.instance_of(HttpHeaderFieldValueSetCookieParamSecure)),
-        default=HttpHeaderFieldValueSetCookieParamSecure(False)
+        default=False
     )
     http_only = attr.ib(
         converter=attr.converters.optional(HttpHeaderFieldValueSetCookieParamHttpOnly.convert),
         validator=attr.validators.optional(attr.validators.instance_of(HttpHeaderFieldValueSetCookieParamHttpOnly)),
-        default=HttpHeaderFieldValueSetCookieParamHttpOnly(False)
+        default=False
     )
     same_site = attr.ib(
         converter=attr.converters.optional(HttpHeaderFieldValueSetCookieParamSameSite.convert),
@@ -1499,8 +1499,12 @@ class HttpHeaderFieldValueSetCookie(FieldValueBase):  # pylint: disable=too-many
 
         params = {}
         for name, attribute in attr.fields_dict(type(self)).items():
+            if attribute.name in ['name', 'value', ]:
+                continue
+
             value = getattr(self, name)
-            if value != attribute.default and attribute.name not in ['name', 'value', ]:
+            default = attribute.default if attribute.converter is None else attribute.converter(attribute.default)
+            if value != default:
                 params[name] = getattr(self, name)
 
         if params:
